@@ -238,6 +238,10 @@ def run(run):
             case["ctx"] = inject_hostile(case, g)
             if isinstance(case["data"], float) and g.chance(0.5):
                 case["data"] = HFloat(case["data"])
+            if i % 4 == 1:
+                ex = gen.add_exotic_parameter(case, g)
+                case["nodes"], case["ctx"] = ex["nodes"], ex["ctx"]
+                run.count("cases_with_exotic_parameter_value")
             history = [hg.pipeline(max_len=4, fault_bias=0.2) for _ in range(g.rng.randint(0, 6 if run.tier == "quick" else 10))]
             details = [DETAILS[i % len(DETAILS)]] if run.tier == "quick" else DETAILS[:3]
             for detail in details:
